@@ -124,6 +124,18 @@ func (bc *Blockchain) PrevalidateBlock(b *block.Block, txs []*transaction.Transa
 			if block.GetSeedhashId(side.Timestamp) != block.GetSeedhashId(b.Timestamp) {
 				return fmt.Errorf("side block has a different seedhash")
 			}
+			// the side block's chain list comes from the peer unchecked: MiningBlob() panics while sorting it
+			// if it names this network or repeats a network id
+			for i, v := range side.OtherChains {
+				if v.NetworkID == config.NETWORK_ID {
+					return fmt.Errorf("side block other chain %x includes current network id", v.Hash)
+				}
+				for i2, v2 := range side.OtherChains {
+					if i != i2 && v.NetworkID == v2.NetworkID {
+						return fmt.Errorf("side block has duplicate other chain network id %d", v.NetworkID)
+					}
+				}
+			}
 			// verify that side block's difficulty is at least 2/3 of current block difficulty
 			if !block.ValidPowHash32(randomvirel.PowHash(seed, side.MiningBlob().Serialize()), b.Difficulty.Mul64(2).Div64(3)) {
 				return fmt.Errorf("commitment does not meet difficulty")
